@@ -9,6 +9,8 @@ and of the three places that drive it with a non-trivial control skeleton:
   `FST.unpar`   (fst.py:3713-3737)            manual `enter() ... fail() | success()`
   `_put_one`    (fst_put_one.py:3216-3339)    guards, handler inside `with`, raw fallback inside a second `with`
   `_put_slice`  (fst_put_slice.py:3853-3903)  same skeleton (no `force`)
+  `FST.replace` on a root node (fst.py)       guards (`code is None`, `to`, own root, consumed FST — the last two since
+                                              fix C12-F2/F3) BEFORE `with self._modifying(): code_as_all; swap lines; _set_ast`
   `FST.put_src(action='reparse')` (fst.py)    `with parent._modifying(False, True): parent._reparse_raw(...)`: this is
                                               `Prog.withM parent (raw := true) (force := false) body`; the correspondence
                                               drives the real `put_src` with `_reparse_raw` stubbed to run `body`
@@ -121,6 +123,9 @@ inductive Prog where
   /-- the skeleton of `_put_one` / `_put_slice` on parent node `n`: guards, handler body inside `with` (non-raw),
   raw body inside a second `with` when `raw=True` or (`raw='auto'` and the handler raised a catchable exception) -/
   | put (n : NodeRef) (raw : RawOpt) (force : Bool) (guardFails : Bool) (handler rawBody : List Prog)
+  /-- the root branch of `FST.replace` on root node `n`: guards (`cannot delete root node`, `to` option, `circular put
+  detected`, `already been consumed`) and only then `with self._modifying(): body` (`code_as_all`, line swap, `_set_ast`) -/
+  | rootReplace (n : NodeRef) (guardFails : Bool) (body : List Prog)
 deriving Repr, Inhabited
 
 /-- Result of running a history: registry afterwards, exception propagating out (if any), and the registry as it was
@@ -215,6 +220,11 @@ def putRun (n : NodeRef) (raw : RawOpt) (force : Bool) (guardFails : Bool) (hand
       ⟨r.reg, r.exc, first.1.trace ++ r.trace⟩
     else first.1
 
+/-- The root branch of `FST.replace` (fst.py): every guard comes before the `with`. -/
+def rootReplaceRun (n : NodeRef) (guardFails : Bool) (body : Reg → Res) (reg : Reg) : Res :=
+  if guardFails then ⟨reg, some .guard, []⟩
+  else withRun n false false body reg
+
 mutual
 def run : Prog → Reg → Res
   | .raise c, reg => ⟨reg, some (.user c), []⟩
@@ -223,6 +233,7 @@ def run : Prog → Reg → Res
   | .try_ catchAll body, reg => tryRun catchAll (runList body reg)
   | .put n raw force guardFails handler rawBody, reg =>
     putRun n raw force guardFails (runList handler) (runList rawBody) reg
+  | .rootReplace n guardFails body, reg => rootReplaceRun n guardFails (runList body) reg
 
 def runList : List Prog → Reg → Res
   | [], reg => ⟨reg, none, []⟩
